@@ -3,7 +3,7 @@
    used for the core fragment.  Cnl/Core.v: the core fragment F0, its compile model (byte-exact on F0), grounding, and the reading. *)
 Require Import Coq.Strings.String Coq.Lists.List Coq.Bool.Bool.
 Require Import Coq.ZArith.ZArith Lia.
-Require Import Cnl2aspV.Asp.Ground Cnl2aspV.Cnl.Core Cnl2aspV.Cnl.CoreProofs Cnl2aspV.Cnl.CoreOneOf Cnl2aspV.Cnl.CoreDef.
+Require Import Cnl2aspV.Asp.Ground Cnl2aspV.Cnl.Core Cnl2aspV.Cnl.CoreProofs Cnl2aspV.Cnl.CoreOneOf Cnl2aspV.Cnl.CoreDef Cnl2aspV.Cnl.CoreChoice.
 Import ListNotations.
 
 (* for hierarchical ground programs (no predicate depends on itself): I is a stable model iff it satisfies the constraints and
@@ -133,3 +133,36 @@ Example C01_definition_example :
   r_sentence s (("busy(1)" :: base)%string) x = true /\ r_sentence s base x = false /\ r_sentence s (("busy(1)" :: "busy(2)" :: base)%string) x = false /\
   print_program (compile_sentence s x) = ("busy(R) :- room(R), host(R,S), shelf(S)." ++ Str.nl)%string.
 Proof. vm_compute. repeat split. Qed.
+
+(* Core fragment, a choice sentence without for-each ("Every c [X] can <verb> [exactly n / at most n / at least n / between n
+   and m] a d [Y]."): the cardinality bounds of the ground choice rules hold in I exactly when every declared subject is related
+   to a number of declared objects within the stated bounds -- for every specification, every cardinality phrase, relation,
+   universe and interpretation, provided the two variables differ, the interpretation holds exactly the declared values of the
+   two concepts, and the universe and the object domain list no value twice (counting is by distinct objects).  Partial: no
+   for-each; that the chosen atoms are supported by these rules is C01_hierarchical_stable's supportedness. *)
+Theorem C01_choice_bounds_partial :
+  forall (s : spec) (U : list string) (I : interp) (c : choice),
+    ch_foreach c = None ->
+    var_of s (ch_subj c) (ch_slabel c) <> var_of s (ch_obj c) (ch_olabel c) ->
+    (forall x, In x U -> holds I (atom_text (ch_subj c) [x]) = Util.mem_string x (dom_of s (ch_subj c))) ->
+    (forall y, In y U -> holds I (atom_text (ch_obj c) [y]) = Util.mem_string y (dom_of s (ch_obj c))) ->
+    incl (dom_of s (ch_subj c)) U -> incl (dom_of s (ch_obj c)) U ->
+    NoDup U -> NoDup (dom_of s (ch_obj c)) ->
+    constraints_ok I (flat_map (ground_rule U) (compile_sentence s (SChoice c))) = r_sentence s I (SChoice c).
+Proof. exact choice_bounds_correct. Qed.
+Print Assumptions C01_choice_bounds_partial.
+
+(* non-vacuity: rooms 1..2, shelves 1..2, 'Every room can host exactly 1 shelf.': admitted with one shelf per room, rejected with
+   two shelves in room 1 or none in room 2 *)
+Example C01_choice_example :
+  let s := {| concepts := [{| c_name := "room"; c_key := "id"; c_dom := DRange 1 2 |}; {| c_name := "shelf"; c_key := "id"; c_dom := DRange 1 2 |}];
+              sentences := [] |} in
+  let c := {| ch_subj := "room"; ch_slabel := None; ch_verb := {| v_word := "host"; v_copula := false; v_prep := None |}; ch_card := CExactly 1;
+              ch_obj := "shelf"; ch_olabel := None; ch_foreach := None |} in
+  let base := ["room(1)"; "room(2)"; "shelf(1)"; "shelf(2)"]%string in
+  var_of s (ch_subj c) (ch_slabel c) <> var_of s (ch_obj c) (ch_olabel c) /\
+  r_sentence s (("host(1,1)" :: "host(2,1)" :: base)%string) (SChoice c) = true /\
+  r_sentence s (("host(1,1)" :: "host(1,2)" :: "host(2,1)" :: base)%string) (SChoice c) = false /\
+  r_sentence s (("host(1,1)" :: base)%string) (SChoice c) = false /\
+  print_program (compile_sentence s (SChoice c)) = ("1 <= {host(RM_D,SHLF_D): shelf(SHLF_D)} <= 1 :- room(RM_D)." ++ Str.nl)%string.
+Proof. vm_compute. repeat split. discriminate. Qed.
